@@ -5,12 +5,17 @@ import (
 	"fmt"
 	"github.com/ipld/go-ipld-prime/node/bindnode"
 	ipldschema "github.com/ipld/go-ipld-prime/schema"
+	"github.com/storacha/go-ucanto/core/invocation/ran"
+	"github.com/storacha/go-ucanto/core/message"
 	"github.com/storacha/go-ucanto/core/result/failure"
 	"github.com/storacha/go-ucanto/core/schema/options"
 	"github.com/storacha/go-ucanto/server/transaction"
 	"github.com/storacha/go-ucanto/transport"
+	"github.com/storacha/go-ucanto/transport/car/request"
+	"github.com/storacha/go-ucanto/transport/car/response"
 	thttp "github.com/storacha/go-ucanto/transport/http"
 	"io"
+	"iter"
 	"net/http"
 	"net/http/httptest"
 	"net/url"
@@ -35,6 +40,10 @@ import (
 func init() {
 	gens["C08"] = genC08
 	execs["serve"] = execServe
+	execs["servepanic"] = execServePanic
+	isolatedOps["servepanic"] = true
+	freshOps["servepanic"] = true
+	crashOKOps["servepanic"] = true
 }
 
 type okOut struct{ N int64 }
@@ -297,7 +306,37 @@ func (cw *CWorld) serveBatch(srv server.ServerView, calls *[]handlerCall) (statu
 			invs = append(invs, cw.D[id])
 		}
 	}
-	resp, err := client.Execute(invs, conn)
+	var resp interface {
+		Get(ipld.Link) (ipld.Link, bool)
+		Blocks() iter.Seq2[ipld.Block, error]
+	}
+	var err error
+	if cw.forgeReports && cw.phase == "" && len(invs) > 0 {
+		// the request itself already "reports" a receipt for every invocation it asks to execute (signed by
+		// a stranger, claiming success): the server must run them all the same and answer with its own
+		pools()
+		var forged []receipt.AnyReceipt
+		for _, inv := range invs {
+			if rc, ferr := receipt.Issue(edPool[9], result.Ok[okOut, okOut](okOut{99}), ran.FromInvocation(inv)); ferr == nil {
+				forged = append(forged, rc)
+			}
+		}
+		msg, berr := message.Build(invs, forged)
+		if berr != nil {
+			return nil, []string{"build:" + berr.Error()}
+		}
+		req, eerr := request.Encode(msg)
+		if eerr != nil {
+			return nil, []string{"encode:" + eerr.Error()}
+		}
+		hres, rerr := ch.Request(req)
+		if rerr != nil {
+			return nil, []string{"execute:" + rerr.Error()}
+		}
+		resp, err = response.Decode(hres)
+	} else {
+		resp, err = client.Execute(invs, conn)
+	}
 	if err != nil {
 		return nil, []string{"execute:" + err.Error()}
 	}
@@ -395,6 +434,10 @@ func execServe(args []string) (res Result) {
 	log := &runLog{}
 	var calls []handlerCall
 	var mu sync.Mutex
+	if len(w.Invs) > 0 {
+		l := cw.D[w.Invs[0]].Link().String()
+		cw.forgeReports = l[len(l)-2]%4 == 0
+	}
 	methods := cw.methodOptions(log, &calls, &mu, nil)
 	srv, err := cw.buildServerWith(log, methods, false)
 	if err != nil {
@@ -481,4 +524,40 @@ var convOpts = []bindnode.Option{
 
 func (c convCaveats) ToIPLD() (ipld.Node, error) {
 	return ipld.WrapWithRecovery(&c, convType, convOpts...)
+}
+
+// execServePanic: a world whose chain holds a revoked delegation, served by a server whose revocation checker
+// PANICS where it would report the revocation (its store is down). The process may die with it; what must not
+// happen is that the authorization is used although the checker never accepted it. args = [mode, world]
+func execServePanic(args []string) (res Result) {
+	var w AWorld
+	if err := json.Unmarshal([]byte(args[1]), &w); err != nil {
+		return Result{Impl: "bad-world:" + err.Error()}
+	}
+	defer func() {
+		if r := recover(); r != nil {
+			res = Result{Impl: "crashed-or-refused", Oracle: "ok"}
+		}
+	}()
+	cw, err := Concretise(&w)
+	if err != nil {
+		return Result{Impl: "concretise-error:" + err.Error()}
+	}
+	cw.panicChecker = true
+	log := &runLog{}
+	var calls []handlerCall
+	var mu sync.Mutex
+	srv, err := cw.buildServer(log, &calls, &mu, nil)
+	if err != nil {
+		return Result{Impl: "server-error:" + err.Error()}
+	}
+	statuses, problems := cw.serveBatch(srv, &calls)
+	mu.Lock()
+	defer mu.Unlock()
+	if len(problems) > 0 && statuses == nil {
+		return Result{Impl: "crashed-or-refused", Oracle: "ok"}
+	}
+	// the process lived: then the checker was never shown a revoked authorization, and the outcome is the
+	// stateless model's (an authorization through delegations none of which is revoked, or a refusal)
+	return Result{Args: []string{args[0], mustJSON(&w)}, Impl: serveCanon(&w, statuses, calls)}
 }
